@@ -13,7 +13,7 @@ PROPERTY = "C19"
 FUNCTIONS = [
     "cnvlib.descriptives.on_array/on_weighted_array (NaN stripping, trivial lengths)",
     "cnvlib.descriptives.weighted_median/median_absolute_deviation/interquartile_range/gapper_scale/q_n/weighted_mad/weighted_std",
-    "cnvlib.descriptives.biweight_location/biweight_midvariance (n <= 2 and constant data only)",
+    "cnvlib.descriptives.biweight_location/biweight_midvariance (n <= 2, constant data, and n - 1 equal values plus one far outlier)",
     "cnvlib.smoothing.check_inputs/_width2wing/_pad_array/rolling_median/kaiser (unweighted)/convolve_unweighted/savgol (weighted: convolve_weighted)",
 ]
 BOUNDS = {
@@ -240,6 +240,22 @@ def h_wscale(ctx, name, n, const=False):
     ctx.cover("relational")
 
 
+def h_biweight_outlier(ctx, n, side):
+    """n - 1 equal values and one value more than 9 MAD-or-epsilon away: the published
+    formulas discard the outlier, so the location is the common value and the midvariance
+    is 0 (one structured family where the degree stays low enough for the solver)."""
+    x = ctx.real("x", -R, R)
+    y = ctx.real("y", -R, R)
+    ctx.assume(y <= x - 1 if side == "low" else y >= x + 1)
+    xs = [x] * (n - 1) + [y]
+    loc = D.biweight_location(arr(xs))
+    var = D.biweight_midvariance(arr(xs))
+    ctx.observe("loc", loc)
+    ctx.claim(approx(loc, x), "biweight location discards a far outlier among otherwise equal values")
+    ctx.claim(approx(var, 0), "biweight midvariance discards a far outlier among otherwise equal values")
+    ctx.cover("reached")
+
+
 def h_biweight(ctx, which, n, const):
     xs = vec(ctx, n, const=const)
     if which == "loc":
@@ -434,6 +450,7 @@ HARNESSES = [
         wall_s=120,
         query_timeout_ms=20000,
     ),
+    Harness("biweight_outlier", h_biweight_outlier, [{"n": n, "side": sd} for n in (3, 4, 5) for sd in ("low", "high")], covers=["reached"], wall_s=120, query_timeout_ms=20000),
     Harness("rolling_median", h_rolling_median, _smooth_cfgs((0.3, 0.5, 0.99, 2, 3, 5, 9), [1, 2, 3, 4], [5]), covers=["const", "general"], wall_s=240, thorough_wall_s=1500),
     Harness("kaiser", h_kaiser, _smooth_cfgs((0.3, 0.99, 3, 9), [1, 2, 3, 4], [5, 6]), covers=["const", "general"], wall_s=240, thorough_wall_s=1500),
     Harness("savgol_weighted", h_savgol_w, _savgol_cfgs(), covers=["const", "general"], wall_s=240, thorough_wall_s=1500),
